@@ -1008,6 +1008,16 @@ def _iter_position(it, args, dty, func):
     return none()
 
 
+@trait_model(r".*", "Iterator", "find")
+def _iter_find(it, args, dty, func):
+    s = args[0].load() if isinstance(args[0], Ref) else args[0]
+    for x in iter_all(it, s):
+        # the predicate takes `&Self::Item`
+        if it.ctx.branch(it.call_closure(args[1], Agg("tuple", [Ref(Cell(x, "item"), ())]), "bool")):
+            return some(x)
+    return none()
+
+
 @trait_model(r".*", "Iterator", "find_map")
 def _iter_find_map(it, args, dty, func):
     s = args[0].load() if isinstance(args[0], Ref) else args[0]
@@ -1953,7 +1963,7 @@ def _map_new(it, args, dty, func):
     return MapV("HashMap", [])
 
 
-@model("std::collections::HashMap::insert", "std::collections::BTreeMap::insert")
+@model("std::collections::HashMap::insert", "std::collections::BTreeMap::insert", "dashmap::DashMap::insert")
 def _map_insert(it, args, dty, func):
     m = map_of(args[0])
     i = map_find_idx(it, m, args[1])
@@ -1973,12 +1983,25 @@ def _map_get(it, args, dty, func):
     return some(r) if r is not None else none()
 
 
-@model("std::collections::HashMap::contains_key")
+@model("std::collections::HashMap::contains_key", "dashmap::DashMap::contains_key")
 def _map_contains(it, args, dty, func):
     return map_find_idx(it, map_of(args[0]), args[1]) is not None
 
 
 @model("std::collections::HashMap::remove", "std::collections::BTreeMap::remove")
+def _map_remove_fwd(it, args, dty, func):
+    return _map_remove(it, args, dty, func)
+
+
+@model("dashmap::DashMap::remove")
+def _dashmap_remove(it, args, dty, func):
+    r = _map_remove(it, args, dty, func)       # DashMap::remove returns Option<(K, V)>
+    if isinstance(r, Enum) and r.idx == 1:
+        return some(Agg("tuple", [args[1], r.f[0]]))
+    return r
+
+
+@model("std::collections::HashMap::remove__impl")
 def _map_remove(it, args, dty, func):
     m = map_of(args[0])
     i = map_find_idx(it, m, args[1])
@@ -2306,7 +2329,8 @@ def _entry_or_insert(it, args, dty, func):
         elif name.endswith("or_insert"):
             v = args[1]
         else:
-            raise Unsupported("or_default")
+            vt = deref_type(dty or "") or ""
+            v = Seq("vecdeque", [], "?") if "VecDeque" in vt else default_of(it, vt)
         m.items.append((key, v))
         i = len(m.items) - 1
     return _MapValRef(mref, i)
